@@ -56,3 +56,32 @@ def cross_repo_report_with_dotdot_path_after_earlier_agent_report():
         return kinds, dict(stderr=pr.stderr[-300:], recorded=sorted(c20.recorded_files(w, main)))
     finally:
         w.destroy()
+
+
+def report_naming_only_files_outside_any_repository():
+    """D98 (fixed): a person has changed f.txt and created a.txt (nothing reported); an agent report names only a file that is in no
+    repository at all (`edited_filepaths: ["/.../nowhere/x.txt"]`), hook started in the repository => exit 0 and "will be skipped", but
+    the person's lines in f.txt and a.txt were recorded as the agent's: with every named path filtered out the file list became
+    `no restriction` and the checkpoint swept the whole work tree."""
+    from ..witness.common import Script
+    import json
+    import os
+    s = Script("d98", files=1)
+    try:
+        f0 = [s.line("human") for _ in range(3)]
+        s.human_write("f.txt", f0); s.commit_all("init")
+        s.human_write("f.txt", f0 + [s.line("human"), s.line("human")])
+        s.human_write("a.txt", [s.line("human")])
+        outside = os.path.join(s.w.root, "nowhere", "x.txt")
+        os.makedirs(os.path.dirname(outside)); open(outside, "w").write("x\n")
+        payload = {"type": "ai_agent", "repo_working_dir": s.w.repo, "edited_filepaths": [outside], "transcript": {"messages": [{"type": "user", "text": "hi"}]},
+                   "agent_name": "tool", "model": "m", "conversation_id": "S1"}
+        p = s.w.ga("checkpoint", "agent-v1", "--hook-input", json.dumps(payload))
+        if p.rc != 0:
+            s.violation("C20/nonzero-exit", rc=p.rc, stderr=p.stderr[-200:])
+        s.commit_all("the person's work")
+        s.check_notes("w")
+        s.check_blame_tip("w", rule="C20")
+        return s.kinds()
+    finally:
+        s.destroy()
